@@ -1,5 +1,6 @@
 import FitModel.Wire
 import FitModel.FitFormat
+import FitModel.Integrity
 import FitModel.Generated.WireConsts
 import Driver.Util
 /-! Driver handlers for the wire-level encoder/decoder families (syntax: see harness/wire.go). -/
@@ -80,6 +81,13 @@ def mkOpts (arch hopt lmt : Nat) : Opts :=
   else if hopt = 1 then ⟨arch, true, (min lmt 3) + 1⟩
   else ⟨arch, false, 1⟩
 
+def showWB (w : WriteBack) : String := s!"{w.size}.{w.protoVer}.{w.dataSize}.{w.hcrc}.{w.crc}"
+
+/-- verdict and count of the library's own integrity check on the destination content -/
+def showCiW : Fit.Integrity.Result → String
+  | .ok n => s!"ok:{n}"
+  | .err _ n => s!"bad:{n}"
+
 def execEncW (args : List String) : String :=
   let (kv, rest) := splitKV args
   match parseWFiles rest with
@@ -100,10 +108,10 @@ def execEncW (args : List String) : String :=
           let h : Hdr := mkHdr f.size pv f.profileVer Fit.Gen.Wire.profileVersion
           let bs := encodeFit o h f.msgs
           out := out ++ bs
-          let recs := encodeMsgs o (freshEnc o) f.msgs
-          let hcrc := if h.size = 14 then Fit.Crc.write 0 ((hdrBytes h (recs.length % 4294967296)).take 12) else 0
-          wb := wb.push s!"{h.size}.{pv}.{recs.length % 4294967296}.{hcrc}.{Fit.Crc.write 0 recs}"
-      return s!"{status} {hex out} wb={",".intercalate wb.toList}"
+          -- what `Encode` stores back into the caller's FIT value: the MODEL's value (`Wire.writeBack`; `C02_writeback_steps`
+          -- ties it to the code's assignments step by step, `C02_writeback` to the bytes on the wire)
+          wb := wb.push (showWB (writeBack o h f.msgs))
+      return s!"{status} {hex out} wb={",".intercalate wb.toList} ci={showCiW (Fit.Integrity.checkIntegrity out)}"
 
 def hEncW : Handler := modelOnly execEncW
 
@@ -288,9 +296,12 @@ def propRtW (args : List String) (impl : String) : String :=
 not valid, unique and non-decreasing) is fixed in /repo, and `C01_wire_records` has no timestamp hypothesis -/
 def kfRtW (_args : List String) : String := "-"
 
-/-- C02 on the implementation: the bytes the real encoder wrote form a well-formed stream per the
-independent framing spec, one sequence per FIT value, and the header/CRC written back into the caller's
-FIT values are the ones on the wire. -/
+/-- C02 on the implementation: the bytes the real encoder wrote form a well-formed stream per the independent framing
+spec, one sequence per FIT value; every 14-byte header carries its COMPUTED CRC (`headerCrcStrict`: a zero field is not
+good enough — `C02_header_crc`); the header/CRC values written back into the caller's FIT values are the ones on the wire
+(`C02_writeback`); the library's own integrity check accepts the stream and counts one sequence per FIT value
+(`C02_integrity_accepts`); every file CRC covers its whole sequence (`C02_wellformed`; evaluated LAST, so that on a
+12-byte header — where it fails: KF-C02-legacy-crc — all the other clauses have been demanded and have held). -/
 def propEncW (args : List String) (impl : String) : String :=
   match parseRt args with
   | none => "n/a"
@@ -299,7 +310,7 @@ def propEncW (args : List String) (impl : String) : String :=
     else if !optsOKB i.o || !(i.files.all fun f => fitOKB i.o f.1 f.2) then "n/a"
     else
       match (impl.splitOn " ").filter (· ≠ "") with
-      | [status, hx, wb] =>
+      | [status, hx, wb, ci] =>
         if status != "ok" then s!"fail:encode-{status}" else
         match unhex hx with
         | none => "fail:answer"
@@ -308,12 +319,14 @@ def propEncW (args : List String) (impl : String) : String :=
           | none => "fail:not-a-fit-stream"
           | some seqs =>
             if seqs.length != i.files.length then "fail:sequence-count"
-            else if !(seqs.all fun s => Fit.FitFormat.headerCrcOk bs s) then "fail:header-crc"
-            else if !(seqs.all fun s => Fit.FitFormat.fileCrcOk bs s) then "fail:file-crc"
+            else if !(seqs.all fun s => Fit.FitFormat.headerCrcStrict bs s) then "fail:header-crc"
             else
               let onWire := seqs.map fun s =>
                 s!"{s.header.size}.{s.header.protocolVersion}.{s.header.dataSize}.{s.header.crc.getD 0}.{s.crc}"
-              if "wb=" ++ ",".intercalate onWire != wb then "fail:writeback" else "ok"
+              if "wb=" ++ ",".intercalate onWire != wb then "fail:writeback"
+              else if ci != s!"ci=ok:{i.files.length}" then "fail:integrity-check"
+              else if !(seqs.all fun s => Fit.FitFormat.fileCrcOk bs s) then "fail:file-crc"
+              else "ok"
       | _ => "fail:answer"
 
 def kfEncW (args : List String) : String :=
